@@ -443,6 +443,12 @@ class Partitioner:
             rank, lambda expr: Symbol(part_rank.lower()) in expr.atoms(Symbol))
         sym_step = CoordAccess.build_expr(
             CoordAccess.isolate_rank(expr, part_rank))
+
+        # A compound step must remain a single operand wherever it is
+        # substituted into the symbolic step
+        if sym_step != EVar(part_rank.lower()) and isinstance(step, EBinOp):
+            step = EParens(step)
+
         rank_step = cast(
             Expression, TransUtils.sub_hifiber(
                 sym_step, EVar(
